@@ -81,7 +81,7 @@ Definition prog_pf : program :=
     act F_RES_OTHER [LCache F_PPC; LTab T_TABLES; LCache F_LOOKUPS; LCache F_IS_ELEMENTS; LCache F_OPTIONS; LCache F_RES_OTHER] 12;
     act F_AUX [] FN_CLEAN ].                                                        (* _clean_up *)
 
-(* the same with init="results" (or rundcpp: verify_results): the result tables of the previous calculation are
+(* the same with init="results" (verify_results; before the repair also every rundcpp): the result tables of the previous calculation are
    read before anything is written to them *)
 Definition prog_pf_results : program :=
   [ act F_OPTIONS [LTab T_ARGS; LTab T_USER_OPTIONS; LTab T_TABLES; LCache F_RES_BUS] 1;   (* len(net.res_bus) == 0 ? *)
@@ -103,13 +103,14 @@ Definition prog_pf_results : program :=
     act F_RES_OTHER [LCache F_PPC; LTab T_TABLES; LCache F_LOOKUPS; LCache F_IS_ELEMENTS; LCache F_OPTIONS; LCache F_RES_OTHER] 12;
     act F_AUX [] FN_CLEAN ].
 
-(* runopp / rundcopp: as prog_pf but the lookups of the previous calculation are not cleared before _pd2ppc *)
+(* runopp / rundcopp (after the repair "the optimal power flow clears the pd2ppc lookups of the previous calculation") *)
 Definition prog_opf : program :=
   [ act F_OPTIONS [LTab T_ARGS; LTab T_TABLES] 1;
     act F_OPF_CONVERGED [] 2; act F_CONVERGED [] 2;
     act F_AUX [LCache F_AUX; LTab T_TABLES] 3;
     act F_RES_BUS [LTab T_TABLES; LTab T_EMPTY_RES] 4;
     act F_RES_OTHER [LTab T_TABLES; LTab T_EMPTY_RES] 4;
+    act F_LOOKUPS [] 5;                                                             (* lookups cleared *)
     act F_IS_ELEMENTS [LTab T_TABLES; LCache F_OPTIONS] 6;
     act F_SWITCH_INFO [LTab T_TABLES; LCache F_OPTIONS] 6;
     act F_LOOKUPS [LTab T_TABLES; LCache F_OPTIONS; LCache F_IS_ELEMENTS; LCache F_LOOKUPS] 7;
@@ -122,6 +123,11 @@ Definition prog_opf : program :=
     act F_RES_OTHER [LCache F_PPC; LTab T_TABLES; LCache F_LOOKUPS; LCache F_IS_ELEMENTS; LCache F_OPTIONS; LCache F_RES_OTHER] 12;
     act F_RES_COST [LCache F_PPC] 17;
     act F_AUX [] FN_CLEAN ].
+(* before that repair: the lookups of the previous calculation are not cleared before _pd2ppc *)
+Definition prog_opf_old : program :=
+  filter (fun a => negb (Nat.eqb (a_target a) F_LOOKUPS && Nat.eqb (a_fun a) 5)) prog_opf.
+(* before the repair "a DC power flow re-initialises the result tables unless it starts from previous results" rundcpp
+   ran prog_pf_results (verify_results); now it runs prog_pf *)
 
 (* a history: edits of the user-visible state and calculations *)
 Inductive hop :=
@@ -170,7 +176,7 @@ Definition G09 (bs : list busrow) : bool :=
 
 (* ---- output *)
 Definition run_rbw (k : nat) : out :=
-  olist onat (match k with O => rbw prog_pf | 1%nat => rbw prog_pf_results | _ => rbw prog_opf end).
+  olist onat (match k with O => rbw prog_pf | 1%nat => rbw prog_pf_results | 2%nat => rbw prog_opf | _ => rbw prog_opf_old end).
 Definition run_frame_ok (k : nat) : out :=
   OB (frame_ok (match k with O => prog_pf | 1%nat => prog_pf_results | _ => prog_opf end)).
 Definition run_start (bs : list busrow) : out :=
